@@ -171,12 +171,17 @@ def run_timed(cases, budget_s, nproc):
     results = []
     with multiprocessing.get_context('fork').Pool(nproc, maxtasksperchild=50) as pool:
         pending = [(c, pool.apply_async(_worker, (c['text'],))) for c in cases]
+        timeouts = 0
         for c, r in pending:
             try:
                 t = r.get(timeout=budget_s)
                 results.append((c, t))
             except multiprocessing.TimeoutError:
                 results.append((c, None))
+                timeouts += 1
+                if timeouts >= 3:
+                    # stuck workers keep the pool busy: every later case would only wait for its own timeout
+                    break
         pool.terminate()
     return results
 
